@@ -477,3 +477,99 @@ def instguard_rule(ctx, prop, which):
                       "guard, whose keys were made from the parent's positions (parent at '/0/0'): `tree = [* node]`, `node = opt<tree>`, "
                       "`opt<T> = T / null` rejects [[null]] as a recursive rule reference although `node = tree / null` accepts it"
                       % (which, loc[1] if isinstance(loc, tuple) and len(loc) > 1 else loc))
+
+
+def _tableclaim_scenario(f, pairs, claimed, occ, cfgname="default"):
+    from absint import MutList, OPAQUE, PyMap, Interp, Return
+    fi = vt.visitor_fn(f, "json", "visit_value_member_key_entry")
+    fid = vt.visitor_fn(f, "json", "visit_identifier")
+    fub = vt.visitor_fn(f, "json", "repeating_member_upper_bound")
+    m = PyMap(); m.is_map = True
+    for k, v in pairs:
+        m[absint.hkey(("str", k))] = ("enum", "Value::Number", [vt.json_number(v)])
+    obj = vt.self_obj("json", ("enum", "Value::Object", [m]))
+    st = obj[2]["state"][2]
+    st.update({"occurrence": ("None",), "is_member_key": False, "is_colon_shortcut_present": False, "data_location": ("str", ""), "visited_rules": PyMap(),
+               "is_cut_present": False, "advance_to_next_entry": False, "is_multi_type_choice": False, "is_multi_group_choice": False, "type_group_name_entry": ("None",)})
+    obj[2].update({"validating_value": False, "cut_value": ("None",), "object_value": ("None",), "map_entry_candidates": ("None",),
+                   "validated_keys": ("Some", MutList([("str", k) for k in claimed])), "values_to_validate": ("None",)})
+    occv = vt.occ_val(occ)
+    ident = ("enum", "Identifier", {"ident": ("str", "tstr"), "socket": ("None",)})
+    entry = ("enum", "ValueMemberKeyEntry", {"occur": ("Some", ("enum", "Occurrence", {"occur": occv[1]})), "member_key": ("Some", ("enum", "MemberKey::Type1", {"t1": OPAQUE})),
+                                             "entry_type": ("enum", "Type", {"type_choices": MutList()})})
+    counts = []
+    def visit_occurrence(run, node, recv):
+        recv[2]["state"][2]["occurrence"] = occv
+        return ("Ok", ("tuple", []))
+    def visit_memberkey(run, node, recv):
+        sub = Interp(env={"self": recv, "ident": ident}, src_env=run.it.src_env, cfg=run.it.cfg, on_call=run.it.on_call)
+        sub.resolve_fn = run.it.resolve_fn
+        try:
+            return sub.block(fid.node["body"])
+        except Return as r:
+            return r.v
+    def new_child(run, node, recv):
+        o = vt.self_obj("json", run.it.eval(node["a"][0]))
+        o[2]["state"][2].update({"data_location": ("str", "")})
+        return o
+    def visit_type(run, node, recv):
+        return ("Ok", ("tuple", []))        # every candidate value fits the table's value type
+    def vcount(run, node, recv):
+        counts.append(run.it.eval(node["a"][1]))
+        return ("tuple", [])
+    scripts = {"visit_occurrence": visit_occurrence, "visit_memberkey": visit_memberkey, "new_with_recursion_state": new_child, "visit_type": visit_type,
+               "validate_repeating_member_count": vcount, "in_standard_prelude": lambda run, node, recv: ("Some", ("str", "tstr")),
+               "Self::repeating_member_upper_bound": lambda run, node, args: run.it.call_fn_node(fub.node, args)}
+    r = vt.Run(f, "json", cfgname, {}, {"self": obj, "entry": entry}, scripts=scripts)
+    r.it.string_places = True
+    base = r.on_call
+    def on_call(kind, name, node, args, recv, base=base):
+        if kind == "method" and name == "contains" and isinstance(recv, PyMap):
+            return False
+        if kind == "fn" and name:
+            b = name.split("::")[-1]
+            if b == "is_ident_string_data_type": return True
+            if b.startswith("is_ident_") or b.startswith("ident_"):
+                return ("None",) if b == "ident_numeric_kind" else False
+            if b == "rule_from_ident": return ("None",)
+            if b == "type_choice_types_from_ident": return MutList()
+            if b == "lookup_ident": return ("enum", "Token::TSTR", [])
+        return base(kind, name, node, args, recv)
+    r.it.on_call = on_call
+    res = r.run(fi.node)
+    vk = obj[2]["validated_keys"]
+    return res, counts, vk, r.errors
+
+
+def tableclaim_rule(ctx, prop="C01"):
+    import absint
+    rid = "%s.tableclaim" % prop
+    ctx.rule(rid, "JSON visit_value_member_key_entry on a repeating table member (`+ / n*m / * tstr => T`), with the member key visited by the "
+                  "interpreted visit_identifier: a pair that an earlier member already claimed is neither counted towards the table's "
+                  "occurrence bounds nor uses up its upper bound — RFC 8610 matches every map member against at most one group entry "
+                  "(abstract evaluation of both functions on objects with and without an earlier claim; the value visit is scripted to "
+                  "accept every candidate)", floor=4)
+    f = ctx.facts
+    fi = vt.visitor_fn(f, "json", "visit_value_member_key_entry")
+    cases = [("a claimed, b free, +", [("a", 1), ("b", 2)], ["a"], ("OneOrMore", None, None), 1, {"a", "b"}),
+             ("a claimed, b free, 1*1", [("a", 1), ("b", 2)], ["a"], ("Exact", 1, 1), 1, {"a", "b"}),
+             ("a claimed, none free, +", [("a", 1)], ["a"], ("OneOrMore", None, None), 0, {"a"}),
+             ("none claimed, *", [("a", 1), ("b", 2)], [], ("ZeroOrMore", None, None), 2, {"a", "b"}),
+             ("a claimed, b c free, 2*3", [("a", 1), ("b", 2), ("c", 3)], ["a"], ("Exact", 2, 3), 2, {"a", "b", "c"})]
+    for label, pairs, claimed, occ, want_count, want_keys in cases:
+        try:
+            res, counts, vk, errs = _tableclaim_scenario(f, pairs, claimed, occ)
+        except absint.Unknown as e:
+            ctx.incomplete_msg(rid, "%s: %s" % (label, e))
+            continue
+        keys = None
+        if isinstance(vk, tuple) and vk[:1] == ("Some",) and all(isinstance(k, tuple) and k[:1] == ("str",) for k in vk[1]):
+            keys = [k[1] for k in vk[1]]
+        if len(counts) != 1 or absint.has_opaque(counts) or keys is None:
+            ctx.incomplete_msg(rid, "%s: the match count / claimed keys could not be evaluated (%r, %r)" % (label, counts, vk))
+            continue
+        ctx.site(rid, label, fi.file, fi.line, {"match_count": counts[0], "claimed_keys": keys})
+        if counts[0] != want_count or set(keys) != want_keys:
+            ctx.violation(rid, label, fi.file, fi.line, "object %s with %s already claimed, table occurrence %s: the table counts %r matching pair(s) and the claimed "
+                          "keys become %r; a pair belongs to one member only, so the count must be %d and the claimed keys %r"
+                          % (dict(pairs), claimed or "nothing", vt.occ_name(occ), counts[0], keys, want_count, sorted(want_keys)))
